@@ -1,0 +1,24 @@
+//go:build verif
+// +build verif
+
+package node
+
+import (
+	"database/sql"
+
+	"github.com/pegnet/pegnetd/fat/fat2"
+)
+
+// Thin exported wrappers used by the verification harness (build tag `verif` only).
+
+// VerifApplyTransactionBatch calls applyTransactionBatch.
+func (d *Pegnetd) VerifApplyTransactionBatch(sqlTx *sql.Tx, txBatch *fat2.TransactionBatch,
+	rates, averages map[fat2.PTicker]uint64, currentHeight uint32) error {
+	return d.applyTransactionBatch(sqlTx, txBatch, rates, averages, currentHeight)
+}
+
+// VerifRecordPegnetRequests calls recordPegnetRequests.
+func (d *Pegnetd) VerifRecordPegnetRequests(sqlTx *sql.Tx, txBatchs []*fat2.TransactionBatch,
+	rates, averages map[fat2.PTicker]uint64, currentHeight uint32, bank uint64, bankHeight int32) error {
+	return d.recordPegnetRequests(sqlTx, txBatchs, rates, averages, currentHeight, bank, bankHeight)
+}
